@@ -120,6 +120,9 @@ func (bm *Bondmachine) SinglePipelineSimulate(dataType string, input []string, s
 				}
 			}
 
+			// Periodic set
+			sdrive.PeriodicSet(vm, i)
+
 			if _, err := vm.Step(sconfig); err != nil {
 				return nil, err
 			}
